@@ -38,7 +38,7 @@ pub fn fam_reply(seed: u64, n: usize, opts: &gen::GenOpts, any_order: bool) -> V
     draw_tapes(seed ^ 0x7265_706c, n, 600)
         .into_iter()
         .enumerate()
-        .map(|(i, t)| gen::gen_reply_program(&format!("r_{i:03}"), t, opts, any_order))
+        .map(|(i, t)| gen::gen_reply_program(&format!("r_{i:03}"), t, &gen::GenOpts { force_local: Some(i), ..opts.clone() }, any_order))
         .collect()
 }
 
